@@ -113,13 +113,13 @@ def _insert_false_asserts(built):
             out.append(" proof { assert(false); } /*CANARY:%s*/" % pos[idx])
     return "".join(out) + tail, [w for _, w in inserts]
 
-def vacuity_canary(unit):
+def vacuity_canary(unit, pid=None):
     sites = []
     def ov(built):
         txt, s = _insert_false_asserts(built)
         sites.extend(s)
         return txt
-    r = R.run_unit(unit, True, None, "-vacuity", ov, 8)
+    r = R.run_unit(unit, True, None, "-vacuity", ov, 8, None, pid)
     if r.built is None:
         return {"unit": unit, "ok": False, "why": "build failed: %s" % r.tool_errors}
     text = r.built.text.split("\n")
@@ -139,7 +139,7 @@ def load_canaries(unit):
     if not os.path.exists(p): return []
     return json.load(open(p))
 
-def mutation_canary(unit, c, idx):
+def mutation_canary(unit, c, idx, pid=None):
     """apply one textual mutation to the *source* (in memory) and require the unit to be rejected."""
     rel = c["file"]
     path = os.path.join(U.REPO, rel)
@@ -155,9 +155,9 @@ def mutation_canary(unit, c, idx):
     code = ("import sys,json; sys.path.insert(0,%r); import os; os.environ['VERIF_REPO']=%r\n"
             "from vf import unit as U, run as R\n"
             "U.REPO=%r\n"
-            "r=R.run_unit(%r, True, None, %r, None, 4)\n"
+            "r=R.run_unit(%r, True, None, %r, None, 4, None, %r)\n"
             "print(json.dumps({'status':r.status,'fails':[e['obligation'] for e in r.failures][:5],'tool':[str(x)[:200] for x in r.tool_errors][:3]}))\n"
-            % (VERIF, env_repo, env_repo, unit, "-mut%d" % idx))
+            % (VERIF, env_repo, env_repo, unit, "-mut%d" % idx, pid))
     # files other than the mutated one are read from the real repo: symlink them
     for other in c.get("also_files", []):
         os.makedirs(os.path.join(tmp, os.path.dirname(other)), exist_ok=True)
@@ -175,7 +175,7 @@ def thorough(pid, units, results, seed):
     rep = {"vacuity": [], "mutation_canaries": []}
     out = {"violations": [], "tool": [], "obligations": 0, "discharged": 0, "report": rep}
     with cf.ThreadPoolExecutor(max_workers=4) as ex:
-        vac = list(ex.map(vacuity_canary, units))
+        vac = list(ex.map(lambda u: vacuity_canary(u, pid), units))
     for v in vac:
         rep["vacuity"].append(v)
         out["obligations"] += 1
@@ -187,7 +187,7 @@ def thorough(pid, units, results, seed):
             if pid in c.get("properties", [pid]):
                 jobs.append((u, c, i))
     with cf.ThreadPoolExecutor(max_workers=4) as ex:
-        res = list(ex.map(lambda j: (j[0], mutation_canary(*j)), jobs))
+        res = list(ex.map(lambda j: (j[0], mutation_canary(*j, pid=pid)), jobs))
     for u, m in res:
         m["unit"] = u
         rep["mutation_canaries"].append(m)
@@ -212,7 +212,7 @@ def witness_search(pid, unit, e, seed):
 def replay(pid, path, units):
     rec = json.load(open(path))
     u = rec["unit"]
-    r = R.run_unit(u, True, None, "-replay", None, 16)
+    r = R.run_unit(u, True, None, "-replay", None, 16, None, pid)
     still = [e for e in r.failures if e["obligation"] == rec["obligation"]]
     if still:
         print("VIOLATION property=%s replay=%s no-failing-input-found" % (pid, path))
